@@ -16,6 +16,7 @@ import heapq
 import types
 
 START_TIME = 1000.0
+SPIN_LIMIT = 3000
 
 
 class HarnessDeadlock(Exception):
@@ -37,6 +38,20 @@ class _Selector:
             raise HarnessLivelock(f"more than {loop.max_iterations} loop iterations")
         if timeout is None:
             raise HarnessDeadlock("loop would block forever")
+        if timeout == 0:
+            # zero-delay spinner (e.g. a background job whose interval became 0): in reality every loop iteration
+            # takes time, so timers still expire.  After SPIN_LIMIT iterations at one virtual instant jump to the
+            # next timer deadline instead of starving all timers for ever.
+            if loop._vtime == loop._spin_at:
+                loop._spin_count += 1
+                if loop._spin_count > SPIN_LIMIT and loop._scheduled:
+                    when = loop._scheduled[0]._when
+                    if when > loop._vtime:
+                        loop._vtime = when
+                        loop.spin_jumps += 1
+            else:
+                loop._spin_at = loop._vtime
+                loop._spin_count = 0
         if timeout > 0:
             sched = loop._scheduled
             if sched:
@@ -62,6 +77,9 @@ class VirtualLoop(asyncio.BaseEventLoop):
         self.iterations = 0
         self.max_iterations = max_iterations
         self.errors: list[dict] = []
+        self._spin_at = None
+        self._spin_count = 0
+        self.spin_jumps = 0
         # callable () -> float delay (virtual seconds; 0 -> call_soon)
         self.executor_delay = None
         self.executor_calls = 0
